@@ -158,12 +158,32 @@ theorem at_most_one_accepted_merge_per_block (st : State) (a : Answers) :
   simp only [List.length_nil, Nat.zero_add]
   exact tryMerge_accepted_le_one _ _ _
 
-/-- A DEFECT OF THE CURRENT CODE, stated on the model (known finding, replayed on the real code by corpus/c30/07-…json): a GitHub
-notification (`notify_github_changed` sets `github_changed`) is forgotten when the refresh it triggers fails — the flag was cleared
-before `_update_github` and the aborted pass leaves it cleared, so later batch-only passes do not refresh and `try_to_merge` works on
-the stale view (every theorem of this file is about CI's view, which is why they still hold). -/
-theorem notification_lost_on_failed_refresh (st : State) :
-    (evGithubFailed (evFlag st .github)).githubChanged = false := rfl
+/-- A DELIVERED NOTIFICATION SURVIVES UNTIL A REFRESH COMPLETES: once `github_changed` is set (a webhook or the poll reached CI),
+it stays set through every event — failed refreshes included — until a GitHub refresh goes through (`Event.github`). So a pass that
+gets as far as `try_to_merge` after the notification has refreshed first.  (Before commit 9f64769b0 a failed refresh left the flag
+cleared: `notification_lost_on_failed_refresh_old`; replayed on the real code by corpus/c30/07-…json.) -/
+theorem notification_survives_until_refresh (fix : Bool) (es : List Event) (hes : ∀ e ∈ es, ∀ s, e ≠ .github s) :
+    ∀ st : State, st.githubChanged = true → (run fix st es).1.githubChanged = true := by
+  induction es with
+  | nil => intro st h; exact h
+  | cons e t ih =>
+    intro st h
+    unfold run
+    apply ih (fun e' he' => hes e' (List.mem_cons_of_mem _ he'))
+    cases e with
+    | github s => exact absurd rfl (hes _ List.mem_cons_self s)
+    | githubFailed => rfl
+    | flag f => cases f <;> simp [step, evFlag, h]
+    | batch => simpa [step, evBatch] using h
+    | done id ok => simpa [step, evDone] using h
+    | heal a =>
+      simp only [step, evHeal]
+      apply tryMerge_gflag
+      rw [heal_gflag]; exact h
+
+theorem notification_lost_on_failed_refresh_old (st : State) :
+    (evGithubFailedOld (evFlag st .github)).githubChanged = false := rfl
+example (st : State) : (evGithubFailed (evFlag st .github)).githubChanged = true := rfl
 
 /-! ## "its test batch ran against the target branch's current commit" -/
 
